@@ -19,7 +19,7 @@ def classify(ctx: HandlerContext) -> Classification:
             # Everything after -- is a file
             targets.extend(tokens[i + 1 :])
             break
-        elif t.startswith("-"):
+        elif t.startswith("-") and t != "-":
             i += 1
             continue
         else:
